@@ -40,8 +40,11 @@ type Case struct {
 	Reopen string `json:"reopen,omitempty"`
 	// ReopenEarly: the first session is closed right after Open, before anything consumed what
 	// its login left readable.
-	ReopenEarly bool   `json:"reopen_early,omitempty"`
-	StallAt     int    `json:"stall_at"` // -1 none; device stream offset after which nothing is delivered
+	ReopenEarly bool `json:"reopen_early,omitempty"`
+	StallAt     int  `json:"stall_at"` // -1 none; device stream offset after which nothing is delivered
+	// FaultKind: what happens at StallAt: "" the device goes silent; eof / err: the connection is
+	// lost (the login then fails with some error, and the transport is closed)
+	FaultKind   string `json:"fault_kind,omitempty"`
 	User        string `json:"user"`
 	Password    string `json:"password"`
 	Passphrase  string `json:"passphrase"`
@@ -66,9 +69,11 @@ var (
 )
 
 var (
-	userPrompts = []string{"login: ", "Username: ", "edge-1 login: ", "User Access Verification\r\n\r\nUsername: "}
-	passPrompts = []string{"Password: ", "password: ", "Password:"}
-	sshPass     = []string{"admin@10.0.0.1's password: ", "Password: ", "(admin@edge-1) Password: "}
+	// spellings the documented patterns accept (anything ending in "username:" / "login:" /
+	// "password:", any case)
+	userPrompts = []string{"login: ", "Username: ", "edge-1 login: ", "User Access Verification\r\n\r\nUsername: ", "USERNAME:", "Router login: "}
+	passPrompts = []string{"Password: ", "password: ", "Password:", "Local password: ", "Enter PASSWORD: "}
+	sshPass     = []string{"admin@10.0.0.1's password: ", "Password: ", "(admin@edge-1) Password: ", "Local password: "}
 	keyPrompts  = []string{"Enter passphrase for key '/home/u/.ssh/id_ed25519': ", "Enter passphrase for key '/k': "}
 	sshErrors   = []string{
 		"Host key verification failed.", "ssh: connect to host 10.0.0.1 port 22: Operation timed out",
@@ -133,6 +138,11 @@ func Gen(t *rapid.T) Case {
 	askKey := c.Flavour == "ssh" && rapid.IntRange(0, 2).Draw(t, "askKey") == 0
 	askPass := !askKey || rapid.Bool().Draw(t, "askPassToo")
 
+	if rapid.IntRange(0, 9).Draw(t, "noCredentials") == 0 {
+		// the device asks for nothing (key authentication already done by ssh, an open console)
+		askUser, askKey, askPass, rejections = false, false, false, 0
+	}
+
 	for r := 0; r <= rejections; r++ {
 		if askUser {
 			c.Rounds = append(c.Rounds, Round{K: "user", Text: rapid.SampledFrom(userPrompts).Draw(t, "userPrompt")})
@@ -180,6 +190,10 @@ func Gen(t *rapid.T) Case {
 
 	if rapid.IntRange(0, 3).Draw(t, "stall") == 0 {
 		c.StallAt = rapid.IntRange(0, 400).Draw(t, "stallAt")
+	}
+
+	if c.StallAt >= 0 {
+		c.FaultKind = rapid.SampledFrom([]string{"", "", "eof", "err"}).Draw(t, "faultKind")
 	}
 
 	c.Reopen = rapid.SampledFrom([]string{"", "", "same", "silent"}).Draw(t, "reopen")
@@ -374,6 +388,13 @@ func Run(c Case) (res Result) {
 	if c.StallAt >= 0 {
 		pipe.FaultAt = c.StallAt
 		pipe.FaultKind = sim.FaultSilent
+
+		switch c.FaultKind {
+		case "eof":
+			pipe.FaultKind = sim.FaultEOF
+		case "err":
+			pipe.FaultKind = sim.FaultErr
+		}
 	}
 
 	if c.Flavour == "telnet" {
@@ -453,6 +474,38 @@ func Run(c Case) (res Result) {
 
 	if c.StallAt >= 0 && decisive >= 0 && c.StallAt < decisive {
 		want = "timeout"
+	}
+
+	lost := c.StallAt >= 0 && c.FaultKind != "" && (decisive < 0 || c.StallAt < decisive)
+	if lost {
+		// the connection is lost before the dialogue is decided: some error (its class is C06's
+		// business), and like every failed login the transport is closed
+		if openErr == nil {
+			res.Verdict = ev.Fail("Open succeeded although the connection was lost (%s) after %d bytes, before the dialogue was decided (device log %q)", c.FaultKind, c.StallAt, dev.Log)
+			collect()
+
+			return res
+		}
+
+		if pipe.Closes < 1 {
+			res.Verdict = ev.Fail("Open failed with %v (connection lost, %s) but the transport was not closed", openErr, c.FaultKind)
+			collect()
+
+			return res
+		}
+
+		collect()
+		res.Verdict = ev.Verdict{OK: true, NonTrivial: true, Classes: []string{"flavour=" + c.Flavour, "outcome=lost", "loss=" + c.FaultKind}}
+
+		return res
+	}
+
+	if c.StallAt >= 0 && c.FaultKind != "" {
+		// lost only after the dialogue was decided: nothing more to learn from this case
+		collect()
+		res.Verdict = ev.Verdict{OK: true, Infeasible: true, Classes: []string{"loss-after-decision"}}
+
+		return res
 	}
 
 	got := "success"
